@@ -57,11 +57,8 @@ theorem C12_convert_total (p : Parsed) (h : p.NumsOk) : (parseQuery p).NoFault :
           refine Res.noFault_bind hob' fun _ _ => ?_
           refine Res.noFault_bind (getLimit_noFault _) fun _ _ => ?_
           exact Res.noFault_bind (getOffset_noFault _) fun _ _ => trivial
-        split
-        · rename_i e hsl
-          refine Res.noFault_bind (convertExpr_noFault e (hselok e (by rw [← hsel]; exact hsl))) fun _ _ => ?_
-          exact htail _ _ _
-        · exact Res.noFault_bind (by trivial) fun _ _ => htail _ _ _
+        refine Res.noFault_bind (getFilter_noFault _ (by rw [hsel]; exact hselok)) fun _ _ => ?_
+        exact htail _ _ _
 
 /-- The whole part of `run_query` that executes on the CALLER's thread — `parse_query`, the column-name
     lookup for `*`, the table lookup, the `SELECT *` expansion with its `column_names.unwrap()`, and
@@ -335,6 +332,69 @@ theorem C12_unknown_table_is_error (p : Parsed) (cat : Catalog) (hnum : p.NumsOk
       · exact ⟨.fatal, by simp⟩
       · exact ⟨.notimpl, by simp⟩
     · exact ⟨.notimpl, by simp⟩
+
+/-! ### 4b. One column per select item — full statement, what holds, and the open finding -/
+
+/-- Full-strength statement: a single SELECT whose select list contains no wildcard item is answered
+    with exactly one output column per select item. -/
+def C12_one_column_per_item_statement : Prop :=
+  ∀ (q : AQuery) (s : ASelect) (cat : Catalog) (plan : TaskPlan),
+    q.body = .select s → (∀ it ∈ s.projection, it ≠ SelItem.wildcard) →
+    runFront (.stmts [.query q]) cat = .ok plan → plan.outputColnames.length = s.projection.length
+
+/-- It holds whenever the converted query is not taken for `SELECT *`, i.e. unless the select list is the
+    single item `"*"` — an identifier written WITH quotes, which `is_select_star` cannot tell from the
+    wildcard because both become `ColName("*")` (open finding C12-quoted-star-is-wildcard). -/
+theorem C12_one_column_per_item_partial (q : AQuery) (s : ASelect) (cat : Catalog) (plan : TaskPlan)
+    (hb : q.body = .select s)
+    (hstar : ∀ qq, parseQuery (.stmts [.query q]) = .ok qq → qq.isSelectStar = false)
+    (h : runFront (.stmts [.query q]) cat = .ok plan) :
+    plan.outputColnames.length = s.projection.length := by
+  obtain ⟨qq, q', cols, hq, _, hx, _, hnames⟩ := runFront_ok _ cat plan h
+  have hns := hstar qq hq
+  unfold expandStar at hx
+  rw [hns] at hx
+  simp at hx
+  subst hx
+  obtain ⟨c, hc, hp⟩ := parseQuery_select q qq hq
+  obtain ⟨s', hs', hproj, _, _⟩ := getQueryComponents_fields q c hc
+  rw [hb] at hs'
+  injection hs' with hs'
+  subst hs'
+  rw [hnames, List.length_map, getProjection_length _ _ hp, hproj]
+
+/-- The witness: `SELECT "*" FROM t` on a table with columns a and b. -/
+def quotedStarQuery : AQuery :=
+  { body := .select { distinct := false, projection := [.unnamed (.ident "*") "\"*\""],
+                      from_ := [{ relation := .table "t", joins := 0 }], selection := none,
+                      groupBy := .exprs 0 0, having := false },
+    orderBy := .none, limit := .none }
+
+/-- The full statement is false: the quoted identifier `"*"` is expanded like the wildcard (replayed on
+    the real code by the harness class `sys:ident:"*`). -/
+theorem C12_one_column_per_item_refuted : ¬ C12_one_column_per_item_statement := by
+  intro h
+  have := h quotedStarQuery _ { tableExists := true, metaCols := .names ["a", "b"], partitions := 1 }
+    { norm := { main := { projection := [{ expr := .col "a", name := "a" }, { expr := .col "b", name := "b" }],
+                          aggregate := [], filter := .const (.int 1), orderBy := [],
+                          limit := { limit := U64_MAX, offset := 0 } },
+                final := none, sources := [.proj 0, .proj 1] },
+      outputColnames := ["a", "b"], partitions := 1 }
+    rfl (by decide) (by decide)
+  simp at this
+
+/-- Non-vacuity of the partial theorem's hypothesis: `SELECT a FROM t` is not taken for `SELECT *`. -/
+def plainQueryResult : Query :=
+  { select := [{ expr := .col "a", name := "a" }], table := "t", filter := .const (.int 1), orderBy := [],
+    limit := { limit := U64_MAX, offset := 0 } }
+
+example : ∀ qq, parseQuery (limitQuery none none) = .ok qq → qq.isSelectStar = false := by
+  intro qq h
+  have : parseQuery (limitQuery none none) = .ok plainQueryResult := by decide
+  rw [this] at h
+  injection h with h
+  subst h
+  decide
 
 /-! ### 5. The answer is delivered exactly once -/
 
